@@ -75,8 +75,9 @@ func (x *Exec) expr(st *State, e ast.Expr) Term {
 		x.c().axiom(tNot(x.c().opaqueIsNil(t)))
 		return t
 	case *ast.TypeAssertExpr:
-		x.abstractNote(e, "type assertion (havocked)")
-		return x.freshOf("typeassert", x.typeOf(e))
+		v, ok := x.typeAssert(st, e)
+		x.assert(st, ok, "typeassert", x.exprText(e), e, "type assertion succeeds: "+x.exprText(e))
+		return v
 	case *ast.KeyValueExpr:
 		x.unsupported(e, "key-value outside literal")
 	}
@@ -622,14 +623,10 @@ func (x *Exec) coerce(t Term, want *Sort) Term {
 		x.c().axiom(tNot(tEq(r, Term{S: "err.nil", Sort: sortErr})))
 		return r
 	}
-	if want.Kind == KOpaque {
-		// value converted to an interface: injection as an uninterpreted function
-		fn := "box." + sanitize(t.Sort.Name) + "." + sanitize(want.Name)
-		if !x.c().declared[fn] {
-			x.c().declared[fn] = true
-			x.c().emit(fmt.Sprintf("(declare-fun %s (%s) %s)", fn, t.Sort.Name, want.Name))
-		}
-		return app(want, fn, t)
+	if want.Kind == KOpaque && t.Sort.Kind != KOpaque {
+		// value converted to an interface: injection with a partial inverse (type assertions)
+		box, _, _ := x.c().boxFns(t.Sort, want)
+		return app(want, box, t)
 	}
 	if t.Sort.Kind == KOpaque && strings.HasPrefix(t.Sort.Name, "O_nil") {
 		return x.c().zero(want, nil)
@@ -693,4 +690,20 @@ func (x *Exec) convert(st *State, call *ast.CallExpr) Term {
 	}
 	x.abstractNote(call, fmt.Sprintf("conversion %s -> %s (havocked)", from, to))
 	return x.freshOf("conv", to)
+}
+
+// typeAssert models x.(T) for a concrete T through the box/unbox functions of (sort(T), sort(x)).
+func (x *Exec) typeAssert(st *State, e *ast.TypeAssertExpr) (Term, Term) {
+	c := x.c()
+	v := x.expr(st, e.X)
+	tt := x.typeOf(e.Type)
+	ts := c.sortOf(tt)
+	if v.Sort.Kind != KOpaque || ts.Kind == KOpaque {
+		x.abstractNote(e, "type assertion to an interface type (havocked)")
+		return x.freshOf("typeassert", tt), c.fresh("ok", sortBool)
+	}
+	_, unbox, is := c.boxFns(ts, v.Sort)
+	r := app(ts, unbox, v)
+	r.Go = tt
+	return r, app(sortBool, is, v)
 }
